@@ -1,10 +1,11 @@
 """property id -> units and reporting metadata (single source for MANIFEST.json)"""
 from units import (augment, specificity, best, fragments, static_list, hashing, vptrs, resolve, generator, handlers,
-                   virtual_ptr, deferred, slots, install, best_proof, codec)
+                   virtual_ptr, deferred, slots, install, best_proof, codec, tables)
 
-A_TABLES = ('compiler::build_dispatch_tables (grouping of classes by applicability mask, stride products, recursion order, '
-            'v-table entry filling) is NOT under contract (std::map<dynamic_bitset,...>, recursion over containers): '
-            'I_table - "cell(g_0..g_n-1) is best() of the definitions applicable to the classes of those groups" - is assumed')
+A_TABLES = ('compiler::build_dispatch_tables / build_dispatch_table (grouping of classes by applicability mask, stride products, recursion order, '
+            'v-table entry filling) are checked BOUNDED only (units/tables: concrete registries of <= 4 classes, one method of arity <= 3, <= 4 definitions, run together '
+            'with best / is_more_specific / is_base / accumulate against an oracle written from C01 / C02 / C03 / C17): I_table - "the cell selected by the argument '
+            'classes\' v-table entries is the definition C01 asks for" - is established for those registries, not proved in general')
 A_AUGMENT = ('compiler::augment_classes / calculate_covariant_classes are checked BOUNDED only (units/augment: every DAG of <= 4 classes x 6 ways of presenting it), '
              'augment_methods is NOT under contract: in the proofs cov is an arbitrary relation with the stated order axioms; '
              'update-time lookups of unregistered method parameter classes are not checked')
@@ -26,7 +27,7 @@ T_SHAPES = ('partial evaluator instantiating the resolve / handler templates per
 
 PROPS = {
     'C01': {
-        'units': [specificity.jobs, best.jobs, best_proof.jobs, fragments.jobs, hashing.jobs, vptrs.jobs, resolve.jobs, slots.jobs, install.jobs],
+        'units': [specificity.jobs, best.jobs, best_proof.jobs, fragments.jobs, tables.jobs, hashing.jobs, vptrs.jobs, resolve.jobs, slots.jobs, install.jobs],
         'level': 'proof',
         'technique': 'CBMC/DFCC function + loop contracts on extracted is_more_specific; ' + T_SHAPES +
                      ' for method::resolve*; contracts on the v-table pointer lookups; loop-boundary decomposition proof of best(); bounded CBMC on the cell step, install_gv and slot allocation',
@@ -34,29 +35,29 @@ PROPS = {
                       '{virtual_, virtual_ptr, non-virtual} up to length 4 (thorough: 5) and every facet set, the real resolve templates - instantiated '
                       'by a partial evaluator - are proved to return exactly the cell selected by the groups of the virtual arguments, given the installed '
                       'layout. dynamic_vptr / publish_vptrs (vector with and without hash, map) deliver the dynamic class\'s v-table pointer. best() is proved for any number of candidates (inductive obligations over a '
-                      'Skolem vector); the cell-filling step, install_gv and slot allocation are checked bounded.',
-        'level_note': 'that update builds dispatch tables satisfying I_table (build_dispatch_tables) is assumed; install_gv (I_layout) is bounded only; '
+                      'Skolem vector); the cell-filling step, install_gv and slot allocation are checked bounded. The whole table construction (build_dispatch_tables + build_dispatch_table + best + is_more_specific + is_base + accumulate, real bodies together) is run on concrete registries (<= 4 classes, arity <= 3, <= 4 definitions in sampled orders) and compared cell by cell, next by next and flag by flag with an oracle written from the property statements (bounded).',
+        'level_note': 'that update builds dispatch tables satisfying I_table (build_dispatch_tables) is checked on concrete registries only (units/tables), not proved; install_gv (I_layout) is bounded only; '
                       'bounded parts are not proofs; STL semantics trusted',
         'design_ref': 'DESIGN.md section 6 C01',
         'unverified': [A_TABLES, A_AUGMENT, A_INSTALL],
         'assumptions': [],
     },
     'C02': {
-        'units': [handlers.jobs, fragments.jobs, specificity.jobs, best.jobs, best_proof.jobs],
+        'units': [handlers.jobs, fragments.jobs, tables.jobs, specificity.jobs, best.jobs, best_proof.jobs],
         'level': 'proof',
         'technique': T_SHAPES + ' for not_implemented_handler / ambiguous_handler / get_tip / collect_tip; contract on the deprecated call-error forwarder; '
                      'is_more_specific / best() proofs decide when a call is unresolvable; bounded cell step',
         'level_text': 'For every signature shape (length <= 4, thorough 5, plus 17- and 18-parameter signatures for the max_types clamp) both handlers are proved to '
                       'call the policy\'s error handler exactly once with the right status, arity = number of virtual parameters and the dynamic type ids of exactly the '
                       'virtual arguments in order, and never to return (abort follows). The deprecated forwarder passes the same data to call_error. The cell step puts '
-                      'the method\'s own error entries into unresolvable cells (bounded).',
-        'level_note': 'propagation of an exception thrown by the handler through operator() is C++ semantics outside the extracted code; table construction assumed',
+                      'the method\'s own error entries into unresolvable cells (bounded). The whole table construction (build_dispatch_tables + build_dispatch_table + best + is_more_specific + is_base + accumulate, real bodies together) is run on concrete registries (<= 4 classes, arity <= 3, <= 4 definitions in sampled orders) and compared cell by cell, next by next and flag by flag with an oracle written from the property statements (bounded).',
+        'level_note': 'propagation of an exception thrown by the handler through operator() is C++ semantics outside the extracted code; table construction checked on concrete registries only (units/tables)',
         'design_ref': 'DESIGN.md section 6 C02',
         'unverified': [A_TABLES, 'exception propagation when the handler throws (no try / catch / noexcept on the path - not checked mechanically)'],
         'assumptions': [],
     },
     'C03': {
-        'units': [specificity.jobs, best.jobs, best_proof.jobs, fragments.jobs],
+        'units': [specificity.jobs, best.jobs, best_proof.jobs, fragments.jobs, tables.jobs],
         'level': 'proof',
         'technique': 'CBMC/DFCC function + loop contracts on extracted is_base / is_more_specific (unbounded class universe); '
                      'loop-boundary decomposition proof of best() (any number of candidates) cross-checked by a bounded run; bounded CBMC on the next-selection fragment',
@@ -64,7 +65,7 @@ PROPS = {
                       'definitions of "strictly more general" and "more specific" for all class graphs (uninterpreted cov) and arity <= 16 by loop '
                       'invariants; best() is proved against P1-P4 for any number of candidates (inductive obligations per loop segment, Skolem vector) and cross-checked '
                       'bounded (<= 4/5 candidates, all orders); the fragment of build_dispatch_tables that selects and stores next is checked '
-                      'bounded (<= 3/4 definitions, all relations, stale prior values of next)',
+                      'bounded (<= 3/4 definitions, all relations, stale prior values of next). The whole table construction (build_dispatch_tables + build_dispatch_table + best + is_more_specific + is_base + accumulate, real bodies together) is run on concrete registries (<= 4 classes, arity <= 3, <= 4 definitions in sampled orders) and compared cell by cell, next by next and flag by flag with an oracle written from the property statements (bounded).',
         'level_note': 'bounded parts are not proofs; std::vector / <algorithm> semantics trusted; that update reaches the fragment for every method '
                       'and that macros.hpp passes the right next variable to add_function is not covered',
         'design_ref': 'DESIGN.md section 6 C03',
@@ -104,7 +105,7 @@ PROPS = {
         'assumptions': [],
     },
     'C06': {
-        'units': [best.jobs, best_proof.jobs, specificity.jobs, slots.jobs],
+        'units': [best.jobs, best_proof.jobs, specificity.jobs, slots.jobs, tables.jobs],
         'level': 'proof',
         'technique': 'proof of best() against postconditions that mention only the candidate set + lemma (outcome is a function of that set), purity contracts of the comparators, '
                      'bounded CBMC on slot allocation over all class registration orders',
@@ -112,8 +113,8 @@ PROPS = {
                       'against postconditions that only mention the candidate set, and cross-checked for every order of <= 4/5 candidates; a lemma proves that any two results satisfying them agree on no-definition / definition / '
                       'ambiguous and on the winner. is_more_specific / is_base are proved to be pure functions of their arguments. Slot allocation is checked for every '
                       'registration order of the classes (every DAG) for the uniqueness C04 needs.',
-        'level_note': 'that different group numberings yield the same cell contents needs the unproved table construction; method and definition order inside '
-                      'build_dispatch_tables not covered',
+        'level_note': 'that different group numberings and definition orders yield the same cell contents is checked on concrete registries only (units/tables: sampled definition orders against an order-free oracle); '
+                      'method order inside build_dispatch_tables not covered',
         'design_ref': 'DESIGN.md section 6 C06',
         'unverified': [A_TABLES, A_AUGMENT],
         'assumptions': [],
@@ -215,14 +216,14 @@ PROPS = {
         'assumptions': [],
     },
     'C17': {
-        'units': [fragments.jobs],
+        'units': [fragments.jobs, tables.jobs],
         'level': 'proof',
         'technique': 'CBMC/DFCC contract on extracted generic_compiler::accumulate; bounded CBMC on the extracted dim==0 step of build_dispatch_table with best() replaced by its contract',
         'level_text': 'accumulate is proved (loop-free, all values): flags count methods with a non-zero counter, cells add up. '
                       'The extracted dispatch-cell step is checked for <= 3/4 definitions, every mask / relation / prior counter value: '
                       'a gap or ambiguity is counted exactly when it occurs, the concrete variants exactly when every dimension\'s group holds a '
-                      'concrete class, and the flag is threaded through the recursive call',
-        'level_note': 'that cells are in bijection with tuples of class groups and dispatch_table.size() == cells (recursion over std::map) is not under contract',
+                      'concrete class, and the flag is threaded through the recursive call. The whole table construction (build_dispatch_tables + build_dispatch_table + best + is_more_specific + is_base + accumulate, real bodies together) is run on concrete registries (<= 4 classes, arity <= 3, <= 4 definitions in sampled orders) and compared cell by cell, next by next and flag by flag with an oracle written from the property statements (bounded).',
+        'level_note': 'that cells are in bijection with tuples of class groups and dispatch_table.size() == cells is checked on concrete registries only (units/tables), with sampled abstract flags',
         'design_ref': 'DESIGN.md section 6 C17',
         'unverified': [A_TABLES, 'cells / concrete_cells products'],
         'assumptions': [],
